@@ -348,3 +348,14 @@ Section Break.
     | None => None
     end.
 End Break.
+
+(* every protected zone of the tree is closed (is_open = false), at every depth: what
+   close_sub_builder leaves behind when format_node has returned; hypothesis of the token
+   theorems, checked on every dumped tree by the correspondence run *)
+Fixpoint closed_c (c : comp) : bool :=
+  match c with
+  | Zone ch o _ _ =>
+      negb o && (fix go (l : list comp) : bool := match l with [] => true | x :: r => closed_c x && go r end) ch
+  | _ => true
+  end.
+Fixpoint closed_l (l : list comp) : bool := match l with [] => true | x :: r => closed_c x && closed_l r end.
